@@ -314,7 +314,7 @@ func (vc *VC) leaves(t types.Type) []leaf {
 	case *types.Interface:
 		out = []leaf{{"$tag", t, SInt, "tag"}, {"$pay", t, SInt, "pay"}}
 	case *types.Slice:
-		out = []leaf{{"$base", t, SInt, "base"}, {"$off", t, SInt, "off"}, {"$len", t, SInt, "len"}}
+		out = []leaf{{"$base", t, SInt, "base"}, {"$len", t, SInt, "len"}}
 	case *types.Struct:
 		for i := 0; i < u.NumFields(); i++ {
 			f := u.Field(i)
@@ -356,12 +356,15 @@ func (vc *VC) flatten(v Val, t types.Type) []string {
 			// nil interface given as scalar 0
 			return []string{x.T, "0"}
 		}
-		if len(ls) == 3 && ls[0].Comp == "base" {
-			return []string{x.T, "0", "0"}
+		if len(ls) == 2 && ls[0].Comp == "base" {
+			return []string{x.T, "0"}
 		}
 		panic(fmt.Sprintf("flatten: scalar %v for type %s with %d leaves", x, t, len(ls)))
 	case SliceV:
-		return []string{x.Base, x.Off, x.Len}
+		if x.Off != "0" {
+			panic(unsupported("slice with non-zero offset stored or passed"))
+		}
+		return []string{x.Base, x.Len}
 	case IfaceV:
 		return []string{x.Tag, x.Pay}
 	case *StructV:
@@ -402,7 +405,7 @@ func (vc *VC) unflat1(terms []string, t types.Type) (Val, []string) {
 	case *types.Interface:
 		return IfaceV{terms[0], terms[1]}, terms[2:]
 	case *types.Slice:
-		return SliceV{terms[0], terms[1], terms[2]}, terms[3:]
+		return SliceV{terms[0], "0", terms[1]}, terms[2:]
 	case *types.Struct:
 		sv := &StructV{T: t}
 		for i := 0; i < u.NumFields(); i++ {
@@ -441,6 +444,7 @@ type State struct {
 	dead  bool
 	written map[string]bool // logical arrays written since entry
 	stopped bool
+	views []string // backing refs that are read-only views
 	known map[string]bool // safety goals already checked (and assumed) on this path
 }
 
@@ -462,6 +466,7 @@ func (st *State) fork() *State {
 	for k, v := range st.known {
 		n.known[k] = v
 	}
+	n.views = append([]string(nil), st.views...)
 	n.decls = append([]string(nil), st.decls...)
 	n.asm = append([]string(nil), st.asm...)
 	n.trail = append([]string(nil), st.trail...)
@@ -584,17 +589,18 @@ func (st *State) wellTyped(name, sym, alloc string) {
 	switch info.shape {
 	case "obj": // Array Int X
 		sel := sSel(sym, o)
+		// only allocated objects carry the typing invariant; unallocated cells are unconstrained
 		if info.isRef {
-			st.assume(fmt.Sprintf("(forall ((%s Int)) (! (and (<= 0 %s) (< %s %s)) :pattern (%s)))", o, sel, sel, alloc, sel))
+			st.assume(fmt.Sprintf("(forall ((%s Int)) (! (=> (and (<= 0 %s) (< %s %s)) (and (<= 0 %s) (< %s %s))) :pattern (%s)))", o, o, o, alloc, sel, sel, alloc, sel))
 		} else if info.unsigned {
-			st.assume(fmt.Sprintf("(forall ((%s Int)) (! (<= 0 %s) :pattern (%s)))", o, sel, sel))
+			st.assume(fmt.Sprintf("(forall ((%s Int)) (! (=> (and (<= 0 %s) (< %s %s)) (<= 0 %s)) :pattern (%s)))", o, o, o, alloc, sel, sel))
 		}
 	case "nested": // Array Int (Array K X)
 		sel := sSel(sSel(sym, o), k)
 		if info.isRef {
-			st.assume(fmt.Sprintf("(forall ((%s Int) (%s %s)) (! (and (<= 0 %s) (< %s %s)) :pattern (%s)))", o, k, info.keySort, sel, sel, alloc, sel))
+			st.assume(fmt.Sprintf("(forall ((%s Int) (%s %s)) (! (=> (and (<= 0 %s) (< %s %s)) (and (<= 0 %s) (< %s %s))) :pattern (%s)))", o, k, info.keySort, o, o, alloc, sel, sel, alloc, sel))
 		} else if info.unsigned {
-			st.assume(fmt.Sprintf("(forall ((%s Int) (%s %s)) (! (<= 0 %s) :pattern (%s)))", o, k, info.keySort, sel, sel))
+			st.assume(fmt.Sprintf("(forall ((%s Int) (%s %s)) (! (=> (and (<= 0 %s) (< %s %s)) (<= 0 %s)) :pattern (%s)))", o, k, info.keySort, o, o, alloc, sel, sel))
 		}
 	case "mapdom":
 		// the nil map is empty
